@@ -214,7 +214,9 @@ RW_EARLY = make_event("B", 1, 299, [], "accepted while this worker's notifier cl
 # "early": the subscriber's worker accepted RW_EARLY before its notifier client was connected (that announcement fails); afterwards
 # the OTHER worker accepts RW_EV, which must still reach the subscriber
 # "miss_first": the subscriber's worker looked the id up (and found nothing) before the other worker accepted the event
-RW_EVENTS = {"tagged": RW_EV, "kind0": RW_EV2, "ephemeral": RW_EV3, "early": RW_EV, "miss_first": RW_EV}
+# "again": the event is accepted, deleted by its author and accepted again - each acceptance is announced and pushed like a local one
+RW_DEL = make_event("A", 5, 400, [["e", RW_EV["id"]]], "")
+RW_EVENTS = {"tagged": RW_EV, "kind0": RW_EV2, "ephemeral": RW_EV3, "early": RW_EV, "miss_first": RW_EV, "again": RW_EV}
 
 
 class JobWriter:
@@ -303,6 +305,14 @@ def rw_scenario(backend, policy, evname):
             raise HarnessError("notifier clients did not connect")
         state["st2"] = st2
         w._extra_storages = [st2]
+        # which ids the other workers' announcements make each worker look up
+        w._lookups = {0: [], 1: []}
+        for i, st in enumerate(storages):
+            def counted(eid, _orig=st.get_event, _i=i):
+                w._lookups[_i].append(eid)
+                return _orig(eid)
+
+            st.get_event = counted
 
     def connect(w, name, addr):
         return w.connect(name, addr, storage=state["st2"] if name == ("pub" if evname == "early" else "sub") else None)
@@ -323,6 +333,8 @@ def rw_scenario(backend, policy, evname):
         w.ns.notifier.asyncio = asyncio
 
     script = [("sub", ["REQ", "x", {"kinds": [ev["kind"]]}]), ("pub", ["EVENT", ev])]
+    if evname == "again":
+        script += [("pub", ["EVENT", RW_DEL]), ("pub", ["EVENT", ev])]
     return Scenario("realworkers|%s|%s|%s" % (backend, policy, evname), backend, [("sub", "2.2.2.2"), ("pub", "1.1.1.1")], script,
                     config={"run_notifier": True}, storage_options={"stats_interval": 1e15}, setup=setup, connect=connect, finish=finish,
                     horizon=30.0, job_priority=(["pipe", "exec"] if policy == "network-first" else ["exec", "sqlopen", "sqlmisc", "sql"]))
@@ -333,7 +345,7 @@ def rw_cases(tier):
 
     out = []
     for policy in ("disk-first", "network-first"):
-        for evname in ("tagged", "kind0", "ephemeral", "early", "miss_first"):
+        for evname in ("tagged", "kind0", "ephemeral", "early", "miss_first", "again"):
             scn = rw_scenario("sql", policy, evname)
             out.append(("rw", policy, evname, ()))
             if tier == "thorough":
@@ -369,6 +381,15 @@ def run_rw(case, tier):
         ev_seq = next((q for k, q, p in pub.transcript if k == "recv" and '"EVENT"' in p), None)
         # a stored copy in addition to the live push is allowed while the subscriber's stored query was still running (C05)
         allowed = (1, 2) if (eose_seq is None or ev_seq is None or eose_seq > ev_seq) else (1,)
+        if evname == "again":
+            # every acceptance is announced: the subscriber's worker looks the id up once per acceptance; a push can only be missing when the
+            # event had been deleted again by the time the announcement was looked up
+            n_true = sum(1 for m in oks if m[1] == ev["id"] and m[2] is True)
+            looked = x.world._lookups[1 if True else 0].count(ev["id"])
+            if looked != n_true:
+                viol.append({"case": cid, "clause": "every-other-worker-exactly-once", "sig": sig + "|lookups",
+                             "detail": "the event was accepted %d times by worker 1, worker 2 looked its id up %d times | %s schedule=%s" % (n_true, looked, scn.name, x.choices)})
+            allowed = tuple(range(1, n_true + 2))
         if not (oks and oks[0][2] is True):
             pass
         elif len(pushes) not in allowed:
